@@ -5,6 +5,7 @@ A failing obligation means the code moved away from the model (Model.lean names 
 import GoZero.Extracted.C17
 import GoZero.C17.Model
 import GoZero.C17.Buf
+import GoZero.C17.Spec
 namespace GoZero.C17.Tie
 open GoZero.C17
 open GoZero.Extracted.C17
@@ -962,5 +963,44 @@ theorem tie_anonInfoCases : anonInfoCases =
     ["reflect.Struct -> fields, err := buildFieldsInfo(ft, fullName)",
   "reflect.Map -> elemField, err := buildFieldsInfo(mapping.Deref(ft.Elem()), fullName)",
   "default -> if _, ok := info.children[lowerCaseName]; ok { return newConflictKeyError(fullName) }"] := by rfl
+
+/-! ### round 5d: core/configcenter - the Type -> loader table, the empty-value check, what happens to the bytes -/
+
+/-- `ccLoaderOf`: the registry maps exactly json / toml / yaml to the three loaders of package conf. -/
+theorem tie_ccRegistry : ccRegistry =
+    ["\"json\" -> conf.LoadFromJsonBytes", "\"toml\" -> conf.LoadFromTomlBytes", "\"yaml\" -> conf.LoadFromYamlBytes"] := by
+  decide
+
+/-- `NewConfigCenter`: the Type is lower-cased, looked up, then the value is loaded and read back; `loadConfig` hands
+the subscriber's value to `genValue` AS IT IS and stores the result. -/
+theorem tie_fwdCcNewAndLoad :
+    fcallsOf fwdCcNew = [⟨"strings.ToLower", [.other]⟩, ⟨"Unmarshaler", [.result 0]⟩, ⟨"fmt.Errorf", [.other, .other]⟩,
+      ⟨"cc.loadConfig", []⟩, ⟨"cc.subscriber.AddListener", [.other]⟩, ⟨"cc.GetConfig", []⟩] ∧
+    fcallsOf fwdCcLoadConfig = [⟨"c.subscriber.Value", []⟩, ⟨"logx.Errorf", [.other, .other]⟩,
+      ⟨"logx.Infof", [.other, .result 0]⟩, ⟨"c.genValue", [.result 0]⟩, ⟨"c.snapshot.Store", [.result 3]⟩] := by decide
+
+/-- **the bytes are not touched** (`ccValue = ccValueWith id`): in `genValue` the loader is called on `[]byte(data)` with
+`data` the function's own parameter - no call result, no reassignment in between (seeded C17-9: `strings.TrimSpace`). -/
+theorem tie_ccBytesUntouched : ccBytesUntouched (fcallsOf fwdCcGenValue) = true := by decide
+
+theorem tie_fwdCcGenValue : fcallsOf fwdCcGenValue =
+    [⟨"len", [.param 0]⟩, ⟨"reflect.TypeOf", [.other]⟩, ⟨"mapping.Deref", [.result 1]⟩, ⟨"t.Kind", []⟩,
+     ⟨"[]byte", [.param 0]⟩, ⟨"c.unmarshaler", [.result 4, .other]⟩, ⟨"err.Error", []⟩,
+     ⟨"logx.Errorf", [.other, .result 6, .param 0]⟩, ⟨"t.Kind", []⟩, ⟨"logx.Errorf", [.other, .result 8, .param 0]⟩] := by decide
+
+/-- SEMANTIC form, for all arguments and callee behaviours: the loader receives `[]byte(data)` and the target. -/
+theorem tie_fwdCcGenValue_sem {α : Type} (sem : String → List α → α) (data dflt : α) :
+    (runFwdAux sem [data] [] dflt [] (fcallsOf fwdCcGenValue))[5]? = some (sem "c.unmarshaler" [sem "[]byte" [data], dflt]) := by
+  simp [runFwdAux, evalArgs, fcallsOf, fargOf, fwdCcGenValue]
+
+/-- the empty-value checks (`genValue`: `len(data) == 0` ⇒ nothing is loaded; `GetConfig`: no snapshot or empty data ⇒
+`errEmptyConfig`) and the error of the loader is kept (`err != nil`). -/
+theorem tie_ccDecisions (n : Int) (b : Bool) :
+    ccGenCond0 n = decide (n = 0) ∧ ccGenCond1 b = b ∧ ccGenCond2 b = !b ∧ ccGetCond0 b n = (b || decide (n = 0)) ∧
+    ccGenCondCount = 6 ∧ ccGetCondCount = 1 := ⟨rfl, rfl, rfl, rfl, rfl, rfl⟩
+
+theorem tie_ccGetConfig : ccGetConfig =
+    ["call c.value()", "if v == nil || len(v.data) == 0", "call len(v.data)", "return empty, errEmptyConfig",
+     "return v.marshalData, v.err"] := by decide
 
 end GoZero.C17.Tie
